@@ -207,8 +207,12 @@ func (in *inst) Digest() string {
 	for _, hc := range in.held {
 		fmt.Fprintf(&sb, "%v;", hc.ch)
 	}
-	// implementation-side structure that the model does not determine
-	fmt.Fprintf(&sb, "|n%d", len(in.h.Changes()))
+	// implementation-side bookkeeping that the model does not determine (relative heights)
+	nt, sh, cc, hs := in.h.VerifInternals()
+	fmt.Fprintf(&sb, "|n%d t%d s%d c%d h", len(in.h.Changes()), nt, int64(in.h.Height())-int64(sh), cc)
+	for _, x := range hs {
+		fmt.Fprintf(&sb, "%d,", int64(in.h.Height())-int64(x))
+	}
 	return sb.String()
 }
 
